@@ -99,6 +99,13 @@ func runC11(cfg *config, res *monitor.Result) {
 		if !r.Bool() {
 			continue
 		}
+		if r.Bool() {
+			// the equally named type of another runtime (same schema, same options) is classified before this one
+			for _, tw := range twinsOf(cfg, t) {
+				_ = monitor.Try(func() { _ = csproto.MsgType(tw) })
+				classes["first-contact/twin-of-another-runtime/"+t.pkg.Flavour]++
+			}
+		}
 		typedNil := reflect.Zero(reflect.TypeOf(t.pkg.New(t.md.FullName()))).Interface()
 		fn := []string{"MsgType", "Clone", "Equal", "Size", "MarshalText"}[r.Intn(5)]
 		_ = monitor.Try(func() {
@@ -293,6 +300,11 @@ func runC11(cfg *config, res *monitor.Result) {
 						viol("Equal", "differs-from-runtime", "csproto.Equal disagrees with the runtime's Equal on a clone and its original", d)
 					}
 					other, _ := build(t, cases[(ci+1)%len(cases)].Msg)
+					// the same object on both sides: still the runtime's own answer (Gogo's Equal is false for a message
+					// that holds a NaN, protobuf-go's is true)
+					if csproto.Equal(gen, gen) != ops.equal(gen, gen) {
+						viol("Equal", "differs-from-runtime:same-object", fmt.Sprintf("csproto.Equal(m, m) = %v, the runtime's Equal(m, m) = %v", csproto.Equal(gen, gen), ops.equal(gen, gen)), d)
+					}
 					if other != nil && csproto.Equal(gen, other) != ops.equal(gen, other) {
 						viol("Equal", "differs-from-runtime", "csproto.Equal disagrees with the runtime's Equal", d)
 					}
